@@ -302,8 +302,96 @@ func gen(c *common.Ctx, emit func(...string)) {
 		emit("rsegconcat", seg, common.Hex(genString(r, 3, true)))
 		emit("rtextconcat", text(), common.Hex(genString(r, 3, true)))
 		// styledown round trip: styles the chosen definitions can express
-		emit("sd", genSdText(r), common.Hex(common.Pick(r, sdDefs)))
+		sdText, sdDef := genSdText(r), common.Pick(r, sdDefs)
+		emit("sd", sdText, common.Hex(sdDef), sdTable(sdDef))
+		// Render on markup that Derender did not produce: mutated Derender output and hand-made stanzas
+		var markup string
+		if src, err := styledown.Derender(parseText(sdText), sdDef); err == nil && r.Intn(3) > 0 {
+			markup = mutateMarkup(r, src)
+		} else {
+			markup = common.Pick(r, sdMarkups)
+		}
+		emit("sdren", common.Hex(markup), sdTable(markup))
 	}
+	for _, m := range sdMarkups {
+		emit("sdren", common.Hex(m), sdTable(m))
+	}
+}
+
+// sdMarkups: hand-made Styledown sources around the error branches of Render.
+var sdMarkups = []string{
+	"", "\n", "a", "a\n", "a\n \n", "a\n*\n", "a\nx\n", "ab\n*\n", "a\n \n\nno-eol\n", "a\n \nno-eol\n",
+	"a\n \n\nno-eol", "a\n \n\n\nno-eol\n\n", "世\n**\n", "世\n* \n", "世\n*\n", "世\n世\n", "a世\n 世\n", "世a\n世 \n",
+	"a\nR\n\nR red\n", "a\nR\n\nR red\nR green\n", "a\nR\n\nR  bold   red \n", "a\nR\n\nRR red\n", "a\nR\n\nR nosuchstyle\n",
+	"a\nR\n\nR\n", "a\n世\n\n世 red\n", "a\n*\n\n* red\n", "a\n \n\n  red\n", "á\n \n", "a\t\n \n", "\xff\n \n",
+	"a\n\xff\n", "foo\n***\nbar\n###\n", "foo\n***\n\nbar\n###\n", "\n\n\n\n", "\n\n\nno-eol\n", "a\n \n\nno-eol\nno-eol\n",
+	"ab\n *\n\nno-eol\n", "a\n_\nb\n#\n", "no-eol\nxxxxxx\n", "a\n \n\n\u00a0R red\n", "a\nR\n\nR\u00a0red\n", "a\nR\n\nR\tred\n",
+	// the style line runs out under a double-width character (unfixed: slice beyond the rune slice, panics when the capacity is exhausted)
+	strings.Repeat("a", 63) + "世\n" + strings.Repeat(" ", 63) + "世\n",
+	strings.Repeat("a", 31) + "世\n" + strings.Repeat(" ", 31) + "世\n",
+}
+
+func mutateMarkup(r *common.Rand, src string) string {
+	rs := []rune(src)
+	pieces := []string{"a", " ", "*", "#", "_", "R", "世", "\n", "\n", "no-eol", "́", "\n\n", "R red\n", "x"}
+	for k := r.Range(0, 2); k > 0 && len(rs) > 0; k-- {
+		i := r.Intn(len(rs))
+		switch r.Intn(3) {
+		case 0:
+			rs = append(rs[:i:i], rs[i+1:]...)
+		case 1:
+			rs = append(rs[:i:i], append([]rune(common.Pick(r, pieces)), rs[i:]...)...)
+		default:
+			rs = append(rs[:i:i], append([]rune(common.Pick(r, pieces)), rs[i+1:]...)...)
+		}
+	}
+	return string(rs)
+}
+
+// sdParseDef repeats parseStyleCharDef of pkg/ui/styledown except for the width
+// check (which the model performs): strings.Fields, DecodeRuneInString,
+// string(r) == fields[0], ui.ParseStyling; the styling is reduced to
+// ApplyStyling(Style{}, styling), the only way Render and Derender use it.
+func sdParseDef(line string) (rune, ui.Style, bool) {
+	fields := strings.Fields(line)
+	if len(fields) < 2 {
+		return 0, ui.Style{}, false
+	}
+	r, _ := utf8.DecodeRuneInString(fields[0])
+	if string(r) != fields[0] {
+		return 0, ui.Style{}, false
+	}
+	styling := ui.ParseStyling(strings.Join(fields[1:], " "))
+	if styling == nil {
+		return 0, ui.Style{}, false
+	}
+	return r, ui.ApplyStyling(ui.Style{}, styling), true
+}
+
+// sdTable: the parse of every line of s as a style character definition, for the model.
+func sdTable(s string) string {
+	var entries []string
+	seen := map[string]bool{}
+	for _, line := range strings.Split(s, "\n") {
+		if line == "" || seen[line] {
+			continue
+		}
+		seen[line] = true
+		if r, st, ok := sdParseDef(line); ok {
+			entries = append(entries, fmt.Sprintf("%s=%d=%s", common.Hex(line), r, showStyle(st)))
+		}
+	}
+	if len(entries) == 0 {
+		return "-"
+	}
+	return strings.Join(entries, ";")
+}
+
+func showErrText(t ui.Text, err error) string {
+	if err != nil {
+		return "err"
+	}
+	return showText(t)
 }
 
 var sdDefs = []string{"", "", "R red\nG green", "R red\nG green\nB bold blue\nU underlined inverse", "r fg-red\n世 green"}
@@ -408,8 +496,15 @@ func eval(f []string) (one ui.Text, many []ui.Text, isMany bool) {
 }
 
 func impl(_ any, f []string) string {
-	if f[0] == "sd" {
-		return "oracle-only" // styledown is checked by the oracle, not modelled
+	switch f[0] {
+	case "sd":
+		src, err := styledown.Derender(parseText(f[1]), common.Unhex(f[2]))
+		if err != nil {
+			return "der=err"
+		}
+		return "der=" + common.Hex(src) + " ren=" + showErrText(styledown.Render(src))
+	case "sdren":
+		return showErrText(styledown.Render(common.Unhex(f[1])))
 	}
 	one, many, isMany := eval(f)
 	if isMany {
@@ -708,6 +803,11 @@ func tag(f []string, out string) string {
 			return ""
 		}
 		return "T"
+	case "sdren":
+		if out == "err" {
+			return "sdren:err"
+		}
+		return "sdren:ok"
 	case "sd":
 		t := parseText(f[1])
 		if _, err := styledown.Derender(t, common.Unhex(f[2])); err != nil {
